@@ -198,8 +198,16 @@ fn literals(report: &Report) {
         }
         check_lit(format!("{{%- assign v = {i} -%}}{{{{ v }}}}"), Ok(i.to_string()));
     }
+    // the same numbers spelled with leading zeros are the same numbers (decimal, never another radix)
+    for v in (0i64..=20).chain([64, 77, 100, 777, 1234567, i64::MAX]) {
+        for zeros in ["0", "00", "0000000000000000000000"] {
+            check_lit(format!("{{{{ {zeros}{v} }}}}"), Ok(v.to_string()));
+            check_lit(format!("{{{{ -{zeros}{v} }}}}"), Ok((-v).to_string()));
+            check_lit(format!("{{%- assign v = {zeros}{v} -%}}{{{{ v | plus: 0 }}}}"), Ok(v.to_string()));
+        }
+    }
     // decimals with 1..6 fraction digits
-    for ip in ["0", "1", "12", "123456", "-0", "-7", "+3"] {
+    for ip in ["0", "1", "12", "123456", "-0", "-7", "+3", "007", "-010"] {
         for digits in 1..=6usize {
             for frac in ["5", "05", "25", "125", "000001", "999999", "1", "50"] {
                 if frac.len() > digits {
@@ -213,7 +221,7 @@ fn literals(report: &Report) {
         }
     }
     // strings over the text alphabet minus the closing quote
-    let alpha = ["a", " ", "\t", "\n", "{", "}", "%", "{{", "}}", "{%", "%}", "-", "|", ":", "é", "👍", "e\u{301}", "\\", "'", "\""];
+    let alpha = ["a", " ", "\t", "\n", "{", "}", "%", "{{", "}}", "{%", "%}", "-", "|", ":", "é", "👍", "e\u{301}", "\\", "'", "\"", "\\n", "\\t", "n"];
     for q in ['\'', '"'] {
         let total = seq_count(alpha.len() as u64, 3);
         for i in 0..total {
